@@ -113,6 +113,27 @@ EXTRA = {
             "Also decides that the LINKED flag is cleared only where quotations go away or move on (never on the deletion path)."),
 }
 
+# clauses added after the second seeded round
+EXTRA2 = {
+    "C01": ("relay clauses C06.g/h/i", "Also the relay clauses of C06."),
+    "C02": ("R-GUARD the retry decision is independent of the remainder of Update::integrate", "Also decides that the stash is examined whatever the incoming update left behind."),
+    "C03": ("R-PAIR BlockIter.rel is rewritten after every arithmetic use", "Also decides that the in-block offset of a BlockIter is consumed once."),
+    "C04": ("stashed deletions inside the incoming range (C06.i)", "Also C06.i."),
+    "C05": ("C02.g dependency test", "Also C02.g."),
+    "C06": ("R-PROV every arm of encode_with_offset subtracts the offset; R-PROV stashed deletions stay inside the incoming range (value numbering)", "Also decides the offset arms of encode_with_offset and the remainder arithmetic of apply_delete."),
+    "C07": ("running value of the v2 delete-set column (C09.packed)", "Also decides the v2 delete-set running value."),
+    "C08": ("C06.h offset arms", "Also C06.h."),
+    "C10": ("constant index into a decoded container needs a dominating non-emptiness test (armed in L2)", "One sound local pattern is armed in the algebra layer."),
+    "C11": ("R-ORDER flush before re-attributing in TextEvent::get_delta", "Also decides that the pending delta operation is flushed before its attribute set changes."),
+    "C12": ("R-ORDER no keep(false) pass reachable after the keep(true) pass", "Also decides the order of the release and protect passes in handle_after_transaction."),
+    "C13": ("R-OWN writers of the encoder in encode_state_from_snapshot", "Also decides that a snapshot restore writes blocks up to the snapshot's state vector and the snapshot's own delete set on every Ok path."),
+    "C14": ("exact formula of BlockIter::can_forward by truth table", "Also decides the skip rule of the walk that picks the anchoring element."),
+    "C16": ("R-GUARD merged pieces are appended with a look at the last entry", "Also decides coalescing of merged pieces in binary operations."),
+    "C18": ("R-GUARD first contact recorded unconditionally in the Vacant arm", "Also decides that a never-seen client is recorded with its clock whatever the entry carries."),
+    "C19": ("R-SIB/R-TABLE option flag constants of the two YOptions conversions", "Also decides the (option, flag constant) table of the two conversions."),
+    "C20": ("R-PROV the looked-up link set is never mutably borrowed before the last copy", "Also decides that the link set copied at a split is intact."),
+}
+
 PENDING = {
 }
 
@@ -121,9 +142,10 @@ def main():
     checks = []
     for pid in sorted(CHECKS):
         tech, text, ref = CHECKS[pid]
-        if pid in EXTRA:
-            tech = tech + "; " + EXTRA[pid][0]
-            text = text + " " + EXTRA[pid][1]
+        for ex in (EXTRA, EXTRA2):
+            if pid in ex:
+                tech = tech + "; " + ex[pid][0]
+                text = text + " " + ex[pid][1]
         checks.append({
             "property_id": pid,
             "quick_cmd": "python3 check.py %s --tier quick" % pid,
